@@ -74,7 +74,9 @@ def build_motls(case, wd=None):
             # lists handed over as DataFrames may carry any row labels and any column order
             out.append(motlutil.vary_columns(motlutil.vary_index(df, klab), variant // 3))
         elif form in ("em_str", "em_path"):
-            path = os.path.join(wd, "%s_%d_%s.em" % (which, os.getpid(), case.get("id", 0)))
+            # half of the file inputs live at ONE path per process that is rewritten before every call (contents cached
+            # by file name would be stale), the others get a path of their own
+            path = os.path.join(wd, "%s_shared.em" % which if variant & 32 else "%s_%d_%s.em" % (which, os.getpid(), case.get("id", 0)))
             vals = [float(v) for row in df[motlutil.FIELDS].to_numpy(dtype=float) for v in row]
             parsers.write_em(path, (20, n, 1), "float32", vals)
             out.append(path if form == "em_str" else pathlib.Path(path))
@@ -150,7 +152,7 @@ def relation(case):
                 if a != b and tomo[a] == tomo[b]:
                     d2 = int(((Xi[a] - Ei[b]) ** 2).sum())
                     if int(dmin) ** 2 < d2 <= int(dmax) ** 2:
-                        links.append([int(case["sid"][a]), int(case["sid"][b]), int(round(math.sqrt(d2) * SCALE))])
+                        links.append([a + 1, b + 1, int(round(math.sqrt(d2) * SCALE))])
         return links
     for a in range(n):
         for b in range(n):
@@ -160,7 +162,7 @@ def relation(case):
             if abs(d - dmax) < REL * dmax or abs(d - dmin) < REL * max(dmin, 1.0) or d < 1e-9:
                 return None
             if dmin < d <= dmax:
-                links.append([int(case["sid"][a]), int(case["sid"][b]), int(round(d * SCALE))])
+                links.append([a + 1, b + 1, int(round(d * SCALE))])
     return links
 
 
@@ -325,11 +327,15 @@ def run_cases(ctx, cases, corrupt=None):
             continue
         for j, rows in enumerate(res):
             if corrupt == "field" and not traces and len(rows) > 1:
-                rows[0][0] = rows[1][0]                       # binding demonstration: a particle reported twice
+                rows[0][0], rows[0][1] = rows[1][0], rows[1][1]   # binding demonstration: a particle reported twice
             if corrupt == "links" and not traces and links:
                 links = links[1:]                              # binding demonstration: a link missing from the relation
-            tr = {"id": case.get("id", 0), "parts": [[int(s), int(t)] for s, t in zip(case["sid"], case["tomo"])],
-                  "link": links, "out": rows}
+            # a particle is identified by (tomogram, subtomogram number) - the numbering may restart in every tomogram;
+            # in the trace it is named by its position in the input lists (an unknown pair gets a negative name)
+            pid = {(int(t), int(sd)): k + 1 for k, (sd, t) in enumerate(zip(case["sid"], case["tomo"]))}
+            named = [[pid.get((r[1], r[0]), -1 - i)] + r[1:] for i, r in enumerate(rows)]
+            tr = {"id": case.get("id", 0), "parts": [[k + 1, int(t)] for k, t in enumerate(case["tomo"])],
+                  "link": links, "out": named}
             if case.get("exact"):
                 tr["lat"] = {"E": case["entry"], "X": case["exit"], "max2": int(case["max"]) ** 2, "min2": int(case["min"]) ** 2}
             traces.append(tr)
@@ -446,6 +452,13 @@ def gen_case(rng, idx, nforce=0):
     sid = list(range(base, base + n))
     if rng.random() < 0.3:
         rng.shuffle(sid)
+    if rng.random() < 0.3:
+        # numbering restarts in every tomogram: (tomogram, number) identifies a particle, the number alone does not
+        seen = {}
+        sid = []
+        for t in tomo:
+            seen[t] = seen.get(t, base - 1) + 1
+            sid.append(seen[t])
     form = FORMS[idx % len(FORMS)]
     form_x = rng.choice(["motl", "frame", "em_str", "em_path", form, form])
     if base == 16777217:                                       # ids beyond 2^24 are not float32 numbers
